@@ -316,7 +316,14 @@ func diffPlan(in *Input) (changes []schema.Change, plan *migrate.Plan, err error
 	if err != nil {
 		return nil, nil, fmt.Errorf("diff: %w", err)
 	}
-	plan, err = a.plan.PlanChanges(context.Background(), "c20", changes)
+	var opts []migrate.PlanOption
+	if in.Scoped {
+		opts = append(opts, func(o *migrate.PlanOptions) { o.SchemaQualifier, o.Mode = new(string), migrate.PlanModeInPlace })
+	}
+	if in.Indent != "" {
+		opts = append(opts, func(o *migrate.PlanOptions) { o.Indent = in.Indent })
+	}
+	plan, err = a.plan.PlanChanges(context.Background(), "c20", changes, opts...)
 	if err != nil {
 		return changes, nil, fmt.Errorf("plan: %w", err)
 	}
@@ -325,7 +332,8 @@ func diffPlan(in *Input) (changes []schema.Change, plan *migrate.Plan, err error
 }
 
 // Outputs computes every observed output of one input once, from fresh graphs: kind -> bytes.
-// Errors of Atlas are outputs too (kind "error.<stage>"): an input must fail the same way every time.
+// A refusal by Atlas is an output too (kind "error.<stage>", the error text): the same input must be
+// refused the same way every time.
 func Outputs(in *Input) map[string][]byte {
 	out := map[string][]byte{}
 	a := apis[in.Dialect]
